@@ -752,7 +752,15 @@ func runDeterministic(c *core.Case) {
 	var reloads []reloadRec
 	ver := 0
 	for j := 0; j < nSteps; j++ {
+		nReloads := 0
 		if j > 2 && j < nSteps-2 && r.IntN(6) == 0 {
+			nReloads = 1
+			if r.IntN(3) == 0 {
+				nReloads = 2 // a second reload before the reloaded groups were evaluated once
+				c.Count("back_to_back_reloads", 1)
+			}
+		}
+		for ; nReloads > 0; nReloads-- {
 			ver++
 			ncfg := rg.mutate(cfg, ver, false)
 			nl := load(ncfg)
@@ -998,8 +1006,15 @@ func runDeterministic(c *core.Case) {
 				}
 			}
 			if !cleanupFails {
-				for s := range pendingStale[g.key()] {
+				for s, rname := range pendingStale[g.key()] {
 					if len(claimed[s]) > 0 {
+						continue
+					}
+					if exemptName[fmt.Sprintf("%s|%d", rname, ev.te)] {
+						// a rule of the same name is exempt at this evaluation (it read a dependency that
+						// still carried the removed instances' series): what it wrote is not known to the
+						// reference, it may legitimately have written this series again
+						c.Count("removed_series_possibly_rewritten_by_exempt_rule", 1)
 						continue
 					}
 					if !staleAtOrBefore(D[s], ev.te) {
